@@ -687,7 +687,12 @@ func runC03(r *Run) {
 						for _, ref := range *al.Referrers() {
 							if st, ok := ref.(*ssa.Store); ok && st.Addr == ssa.Value(al) {
 								nSt++
-								if st.Val != ssa.Value(recv) {
+								// the receiver itself (value receiver spilled) or a whole-struct copy of what it points to
+								whole := false
+								if u, ok := st.Val.(*ssa.UnOp); ok && u.Op == token.MUL && stripValue(u.X) == ssa.Value(recv) {
+									whole = true
+								}
+								if st.Val != ssa.Value(recv) && !whole {
 									okSt = false
 								}
 							}
